@@ -1217,3 +1217,29 @@ Proof.
   rewrite H1 by lia. rewrite Hw, Hnf. cbn [P starts_pfx paren app]. isc. cbn [kval].
   rewrite <- app_assoc. cbn [app]. rewrite H2 by lia. reflexivity.
 Qed.
+
+(* ------------------------------------------------------------------ *)
+(* alias-declarations *)
+
+Theorem alias_roundtrip t rest :
+  wf t -> kind_of t <> KFn -> follow_ok rest = true ->
+  ev (fun f => alias_type f (decl_toks t None ++ rest)) (DOk (t, rest)).
+Proof.
+  intros Hwf Hk Hf. destruct (decl_view t None) as (b & c & v & Ed & Ew).
+  destruct (declarator_rt b c v (layers t) None rest (legal_layers t Hwf) (layers_ok t Hwf)
+              ltac:(now rewrite kind_layers) Hf) as (arrs & d & Hsn & Hnf & Hnr & Hw & [f1 H1]).
+  cbn [name_toks app] in H1. rewrite Ew in Hw.
+  assert (Hpb : parse_base (base_toks3 b c v ++ P (layers t) (name_toks None) ++ rest)
+                = DOk (TBase b c v, P (layers t) (name_toks None) ++ rest)).
+  { apply parse_base_rt. apply nocv_P. now apply follow_nocv. }
+  destruct arrs as [|s r].
+  - cbn [map wrap fold_left] in Hw. subst d. cbn [sufs app] in H1.
+    exists f1. intros f Hge. unfold alias_type. rewrite Ed, <- app_assoc, Hpb, H1 by lia. rewrite Hnf.
+    destruct rest as [|x r]; [reflexivity|].
+    destruct (follow_inv x r Hf) as (_ & _ & _ & _ & _ & _ & H7 & _). now rewrite H7.
+  - destruct (arr_tail d (s :: r) rest ltac:(discriminate) (Hnr ltac:(discriminate)) Hsn (follow_nolb _ Hf))
+      as (A & EA & [f2 H2]).
+    rewrite EA in H1. rewrite Hw in H2.
+    exists (Nat.max f1 f2). intros f Hge. unfold alias_type. rewrite Ed, <- app_assoc, Hpb, H1 by lia. rewrite Hnf.
+    isc. now rewrite H2 by lia.
+Qed.
